@@ -133,19 +133,27 @@ def main():
         })
         json.dump(meta, open(meta_path, "w"), indent=1)
         rows.append(meta)
+    ran = rows
+    # the table always covers every seed: a partial run refreshes its rows and keeps the rest as last recorded
+    rows = []
+    for s_ in sorted(os.listdir(SEEDED)):
+        mp_ = os.path.join(SEEDED, s_, "meta.json")
+        if os.path.exists(mp_) and os.path.exists(os.path.join(SEEDED, s_, "patch.diff")):
+            rows.append(json.load(open(mp_)))
     with open(os.path.join(SEEDED, "MATRIX.md"), "w") as f:
         f.write("# Seeded changes vs checks\n\nGenerated by tools/seedmatrix.py. `confirmed` = applies, test-suite passes with it, demo fails with it and passes without it "
                 "(regress-* are reverts of fix commits).\n\n| seed | breaks | confirmed | detected by (rules) | analysis errors |\n|---|---|---|---|---|\n")
         for m in rows:
             det = "; ".join(f"{c}: {', '.join(r_[:3])}" for c, r_ in sorted(m["detected_by"].items())) or "**missed**"
             if str(m["property"]).startswith(("none", "benign")):
-                det = "silent in every check (as required)" if not m["detected_by"] and not m["analysis_errors"] else "**FALSE ALARM** " + det
+                det = "silent in every check (as required)" if not m["detected_by"] and not m["analysis_errors"] else \
+                      ("**FALSE ALARM** " + det if m["detected_by"] else "no verdict: analysis error (exit 2), never a VIOLATION")
             err = "; ".join(sorted(m["analysis_errors"])) or ""
             f.write(f"| {m['id']} | {m['property']} | {'yes' if m['confirmed'] else 'NO'} | {det} | {err} |\n")
     hit = sum(1 for m in rows if m["detected_by"])
     own = sum(1 for m in rows if any(c in m["property"] for c in m["detected_by"]))
     print(f"seeds={len(rows)} confirmed={sum(1 for m in rows if m['confirmed'])} detected-by-some-check={hit} detected-by-own-property-check={own}")
-    for m in rows:
+    for m in ran:
         print(m["id"], "confirmed" if m["confirmed"] else "UNCONFIRMED", "->", ", ".join(sorted(m["detected_by"])) or "MISSED", ("| errors: " + ",".join(sorted(m["analysis_errors"]))) if m["analysis_errors"] else "")
 
 
